@@ -13,16 +13,17 @@ import (
 	"sort"
 	"strings"
 	"sync"
+	"time"
 
 	"golang.org/x/tools/go/ssa"
 )
 
 type Obligation struct {
-	ID      string   `json:"id"`
-	Kind    string   `json:"kind"` // assert | panic-free | unwind | reach | lock
-	Site    string   `json:"site"`
-	Harness string   `json:"harness"`
-	Case    string   `json:"case,omitempty"`
+	ID      string `json:"id"`
+	Kind    string `json:"kind"` // assert | panic-free | unwind | reach | lock
+	Site    string `json:"site"`
+	Harness string `json:"harness"`
+	Case    string `json:"case,omitempty"`
 	pc      []*Term
 	goal    *Term
 	Verdict string            `json:"verdict"` // unsat (holds) | sat (violated) | unknown ; for reach: sat = reachable
@@ -120,6 +121,11 @@ type Engine struct {
 	diskLog     []string
 	readLog     []string
 	handles     map[int]*fileHandle
+	tier        string
+	feasCalls   int
+	feasMs      int64
+	redirects   map[string]*ssa.Function
+	mainPkg     *ssa.Package
 }
 
 func (e *Engine) site(instr ssa.Instruction) string {
@@ -594,7 +600,10 @@ func (e *Engine) enter(st *State, target *ssa.BasicBlock, m marker) bool {
 
 func (e *Engine) feasible(st *State, extra *Term) bool {
 	as := append(append([]*Term(nil), st.pc...), extra)
-	r := e.pool.Solve(as, 10000, []SolverKind{kindZ3})
+	t0 := time.Now()
+	r := e.pool.Solve(as, 8000, defaultPortfolio)
+	e.feasCalls++
+	e.feasMs += time.Since(t0).Milliseconds()
 	return r.Verdict != Unsat
 }
 
@@ -943,6 +952,10 @@ func (e *Engine) callFn(st *State, ci *callInfo, fn *ssa.Function, args []Value,
 		}
 		return st, nil
 	}
+	if rd := e.redirect(key); rd != nil && rd != fn {
+		e.stubsSeen[shortFn(key)+" -> harness model "+rd.Name()] = true
+		return e.callFn(st, ci, rd, args, nil)
+	}
 	if strings.HasPrefix(fn.Name(), "verif") && e.isRepo(fn) {
 		if stub, ok := e.stubs["verif:"+intrinsicName(fn)]; ok {
 			ci.name = fn.Name()
@@ -980,6 +993,40 @@ func (e *Engine) callFn(st *State, ci *callInfo, fn *ssa.Function, args []Value,
 		return nil, others
 	}
 	return e.mergeStates(rets), others
+}
+
+func mangle(key string) string {
+	r := strings.NewReplacer("/", "_", ".", "_", "(", "", ")", "", "*", "", "-", "_")
+	return "verifStub_" + r.Replace(key)
+}
+
+// redirect finds a harness-defined model (plain Go in the harness package) for a callee.
+func (e *Engine) redirect(key string) *ssa.Function {
+	if e.redirects == nil {
+		return nil
+	}
+	if f, ok := e.redirects[key]; ok {
+		return f
+	}
+	f := e.mainPkg.Func(mangle(key))
+	e.redirects[key] = f
+	return f
+}
+
+// callback runs a function value to completion from inside a stub; st is
+// updated in place to the merged post-state.
+func (e *Engine) callback(st *State, ci *callInfo, fv *FuncV, args []Value) Value {
+	res, _ := e.callFuncV(st, ci, fv, args)
+	if res == nil {
+		panic(unsupported("callback does not return at " + ci.site))
+	}
+	ret := res.ret
+	if res != st {
+		*st = *res
+	}
+	st.ret = nil
+	st.status = stRunning
+	return ret
 }
 
 func intrinsicName(fn *ssa.Function) string {
@@ -1441,7 +1488,7 @@ func (e *Engine) makeSlice(st *State, elem types.Type, ln, cp *Term, site string
 				es[i] = z
 			}
 		}
-		l := e.alloc(st, &ArrayV{E: es})
+		l := e.alloc(st, &ArrayV{E: es, T: elem})
 		return singleSlice(l, BVu(0, 64), ln, cp)
 	}
 	l := e.alloc(st, newBigArr(elem, cp, ""))
